@@ -127,7 +127,7 @@ func scenarioKeys(c *vrun.Ctx) {
 			rec(prefix+"/"+s, depth+1)
 		}
 	}
-	paths = append(paths, "/")
+	paths = append(paths, "/", "") // "" = absolute-form target without a path ("GET http://h HTTP/1.1")
 	rec("", 0)
 	var ts []*target
 	for _, m := range methods {
